@@ -4,6 +4,7 @@ import (
 	"fmt"
 	"io"
 	"os"
+	"rare/pkg/verifhook"
 	"time"
 )
 
@@ -88,6 +89,7 @@ func (s *PollingFollowReader) Read(buf []byte) (int, error) {
 		}
 
 		// Didn't read any bytes... has the file inode changed?
+		verifhook.Point("poll.beforeStat")
 		if s.Reopen {
 			st, _ := os.Stat(s.filename)
 			if st != nil && st.Size() != s.readBytes {
